@@ -280,4 +280,6 @@ func init() {
 		"	r.timeRange = r.timeRange.Union(cfg.TimeRange)\n", "	if r.curr != nil && g.authority <= r.curr.authority {\n		r.timeRange = r.timeRange.Union(cfg.TimeRange)\n	}\n", "C05.R5.range")
 	mut("C10", "SetBounds leaves the domain iterator on the open-time bounds", "cesium/internal/unary/iterator.go",
 		"	i.internal.SetBounds(tr)\n", "	i.internal.SetBounds(i.domainIteratorConfig().Bounds)\n", "C10.R3.bounds")
+	mut("C20", "the relay queues connect requests instead of meeting them", "cesium/relay.go",
+		"		cfg.SlowConsumerTimeout,\n		ins,\n	)", "		cfg.SlowConsumerTimeout,\n		ins,\n		16,\n	)", "C20.R8.rendezvous")
 }
